@@ -46,7 +46,15 @@ let rec stmt () = match next () with
   | "df" -> let x = nat () in let e = expr () in C.SDef (x, e)
   | "de" -> let x = nat () in let t = ty () in let e = expr () in C.SDecl (x, t, e)
   | "sif" -> let c = expr () in let a = stmt () in let b = stmt () in C.SIf (c, a, b)
-  | "wh" -> let c = expr () in let b = stmt () in C.SWhile (c, b)
+  | "wh" -> let c = expr () in let b = stmt () in let e = stmt () in C.SWhile (c, b, e)
+  | "for" -> let x = nat () in let r = (next () = "1") in let e = expr () in let b = stmt () in let els = stmt () in C.SFor (x, r, e, b, els)
+  | "brk" -> C.SBreak
+  | "cont" -> C.SContinue
+  | "raise" -> let c = nat () in let k = int () in C.SRaise (c, many k expr)
+  | "try" -> let b = stmt () in let c = nat () in
+      let x = (match next () with "xs" -> Some (nat ()) | _ -> None) in
+      let h = stmt () in let els = stmt () in C.STry (b, c, x, h, els)
+  | "fin" -> let b = stmt () in let f = stmt () in C.SFinally (b, f)
   | "ret" -> C.SReturn (expr ())
   | "ast" -> C.SAssert (expr ())
   | "pass" -> C.SPass
@@ -95,6 +103,7 @@ let rec val_s = function
 let exn_s = function
   | C.TypeError -> "TypeError" | C.AttributeError -> "AttributeError" | C.NameError -> "NameError"
   | C.IndexError -> "IndexError" | C.AssertionError -> "AssertionError" | C.Unmodelled -> "Unmodelled"
+  | C.UserExn w -> "User " ^ val_s w
 let res_s = function
   | C.Ok _ -> "A" | C.Rej None -> "R0" | C.Rej (Some l) -> "R" ^ string_of_int (int_of_nat l) | C.Unsup -> "U"
 let ann_s = function
